@@ -177,6 +177,14 @@ C01_CATALOGUE = {
         ("s110@cached_shape", "s110", [("3ch", None, None, _ST_CS)], True),
         ("s1hh@cached_angle+base_factor", "s1hh", [("3ch", None, None, _ST_BF)], True),
     ],
+    # the non-default alignment option r_boost: False (the library's own example configurations use it): the final-state helicities are aligned by
+    # EulerAngle.angle_zx_zx of the helicity frames instead of the boost-aware rule.  (Added after seeded change C01-angle_zx_zx_gamma_sign.)
+    "rboost": [
+        ("s110@r_boost_false", "s110", [("3ch", None, None, {"r_boost": False}), ("2ch", ["bc", "cd"], None, {"r_boost": False})], True),
+        ("s1hh@r_boost_false", "s1hh", [("3ch", None, None, {"r_boost": False})], True),
+        ("sh00@r_boost_false", "sh00", [("3ch", None, None, {"r_boost": False})], True),
+        ("f4@r_boost_false", "f4", [("3ch", ["cas", "cas2", "br"], None, {"r_boost": False})], True),
+    ],
 }
 
 
@@ -290,6 +298,13 @@ def c01_half3(ctx):
        assumes=["the data object of every frame is built from that frame's momenta through the public cal_angle (nothing is cached across frames)"])
 def c01_strat3(ctx):
     _c01_run(ctx, "strat3")
+
+
+@group(["C01"], "iface.C01/frame_r_boost_false", _C01_FUNCS + ["angle:EulerAngle.angle_zx_zx", "cal_angle:aligned_angle_ref_rule1"], env="tf", kind="B",
+       bound=_C01_BOUND % ("(1;1,1,0), (1;1,1/2,1/2), (1/2;1/2,0,0) with three chains of three topologies and the four-body (1/2;1/2,0,0,1) with three chains, "
+                           "data option r_boost: False", "64 (quick) / 2048 (thorough)"))
+def c01_rboost(ctx):
+    _c01_run(ctx, "rboost")
 
 
 @group(["C01"], "iface.C01/frame_4body", _C01_FUNCS, env="tf", kind="B",
